@@ -34,7 +34,7 @@ theorem cong_refl {R : Bool → Expr → Expr → Prop}
     (hR : ∀ x a, NSR x → R a x x)
     (hlook : ∀ n, n ≠ "SKIP" → g0.lookup n = g.lookup n)
     (hbodies : ∀ n r, g.lookup n = some r → NSR r.body)
-    (e : Expr) (he : NSR e) (a : Bool) : Cong g g0 R a e e := by
+    (e : Expr) (he : NSR e) (a : Bool) : CongO g g0 R a e e := by
   cases e with
   | ident n t =>
     refine .ident ?_
@@ -74,11 +74,11 @@ theorem ext_fwd (hu : g0.usets = g.usets)
     ∀ n e a, NSR e → SimAt inp g0 (run g inp n) a e e := by
   intro n
   induction n with
-  | zero => intro e a _ s _ hne; exact absurd rfl hne
+  | zero => intro e a _ s _ _ hne; exact absurd rfl hne
   | succ n ih =>
-    intro e a he s ha hne
-    exact cong_sim g inp g0 (run_AP g inp n) n (hsk n ih) hu
-      (cong_refl (fun x a hx => ih x a hx) hlook hbodies e he a) s ha hne
+    intro e a he s ha hp hne
+    exact cong_sim g inp g0 (run_AP g inp n) (run_PB g inp n) n (hsk n ih) hu
+      (cong_refl (fun x a hx => ih x a hx) hlook hbodies e he a) s ha hp hne
 
 theorem ext_bwd (hu : g0.usets = g.usets)
     (hlook : ∀ n, n ≠ "SKIP" → g0.lookup n = g.lookup n)
@@ -87,10 +87,10 @@ theorem ext_bwd (hu : g0.usets = g.usets)
     ∀ n e a, NSR e → SimAt inp g (run g0 inp n) a e e := by
   intro n
   induction n with
-  | zero => intro e a _ s _ hne; exact absurd rfl hne
+  | zero => intro e a _ s _ _ hne; exact absurd rfl hne
   | succ n ih =>
-    intro e a he s ha hne
-    have hc : Cong g0 g (SimAt inp g (run g0 inp n)) a e e := by
+    intro e a he s ha hp hne
+    have hc : CongO g0 g (SimAt inp g (run g0 inp n)) a e e := by
       have := cong_refl (g := g) (g0 := g0) (R := fun a x y => SimAt inp g (run g0 inp n) a y x)
         (fun x a hx => ih x a hx) hlook hbodies e he a
       -- swap the two grammars in the congruence
@@ -121,7 +121,7 @@ theorem ext_bwd (hu : g0.usets = g.usets)
       | notP h => exact .notP h
       | group h => exact .group h
       | push h => exact .push h
-    exact cong_sim g0 inp g (run_AP g0 inp n) n (hsk n ih) hu.symm hc s ha hne
+    exact cong_sim g0 inp g (run_AP g0 inp n) (run_PB g0 inp n) n (hsk n ih) hu.symm hc s ha hp hne
 
 /-- adding an unreferenced `SKIP` entry whose effect on implicit trivia is the same -/
 theorem ext_equiv (hu : g0.usets = g.usets)
@@ -129,15 +129,15 @@ theorem ext_equiv (hu : g0.usets = g.usets)
     (hbodies : ∀ n r, g.lookup n = some r → NSR r.body)
     (hf : ∀ inp n, (∀ e a, NSR e → SimAt inp g0 (run g inp n) a e e) → SkipSim g inp g0 (run g inp n) n)
     (hb : ∀ inp n, (∀ e a, NSR e → SimAt inp g (run g0 inp n) a e e) → SkipSim g0 inp g (run g0 inp n) n)
-    (inp : Input) (e : Expr) (he : NSR e) (s : S0) (r : R0) :
+    (inp : Input) (e : Expr) (he : NSR e) (s : S0) (r : R0) (hp : s.pos ≤ inp.size) :
     Conv g inp e s r ↔ Conv g0 inp e s r := by
   constructor
   · rintro ⟨n, hn, hr⟩
-    have := ext_fwd inp hu hlook hbodies (hf inp) n e s.atomic he s rfl (by rw [hn]; exact hr)
+    have := ext_fwd inp hu hlook hbodies (hf inp) n e s.atomic he s rfl hp (by rw [hn]; exact hr)
     rw [hn] at this
     exact Tgt.conv inp g0 this hr
   · rintro ⟨n, hn, hr⟩
-    have := ext_bwd inp hu hlook hbodies (hb inp) n e s.atomic he s rfl (by rw [hn]; exact hr)
+    have := ext_bwd inp hu hlook hbodies (hb inp) n e s.atomic he s rfl hp (by rw [hn]; exact hr)
     rw [hn] at this
     exact Tgt.conv inp g this hr
 
@@ -209,20 +209,20 @@ theorem skip_comment_loop (hgf : g.fusedSkip = none) (hgw : g.lookup "WHITESPACE
   simp [hs, hgf, hgw, hgc]
 
 theorem loopC_fwd (hcn : c.name = "COMMENT") (hcs : hasBit c.mod SILENT = true)
-    {rec : Sem0} (hap : AP rec) (hb : SimAt inp g0 rec true c.body c.body) :
-    ∀ (k : Nat) (st : S0) (acc : List Pair), st.atomic = true →
+    {rec : Sem0} (hap : AP rec) (hpb : PB inp rec) (hb : SimAt inp g0 rec true c.body c.body) :
+    ∀ (k : Nat) (st : S0) (acc : List Pair), st.atomic = true → st.pos ≤ inp.size →
       skipLoop rec none (some c) k { st with atomic := false } acc ≠ .oof →
       Evt2 (fun m k' => ∀ first, unAtomic (repLoop g0 (run g0 inp m) c.body k' m first st acc)
         = skipLoop rec none (some c) k { st with atomic := false } acc) := by
   intro k
   induction k with
-  | zero => intro st acc _ hne; exact absurd rfl hne
+  | zero => intro st acc _ _ hne; exact absurd rfl hne
   | succ k ih =>
-    intro st acc hst hne
+    intro st acc hst hp hne
     have e0 : trySkip rec none { st with atomic := false } = .no := rfl
     simp only [skipLoop, e0, trySkip_comment hcn hcs rec hst] at hne ⊢
     have h1 : rec c.body st ≠ .oof := by intro x; rw [x] at hne; exact hne rfl
-    obtain ⟨N1, e1⟩ := hb st hst h1
+    obtain ⟨N1, e1⟩ := hb st hst hp h1
     have hsk : ∀ m (first : Bool), (if first = true then R0.ok st [] else skip g0 (run g0 inp m) m st)
         = R0.ok st [] := by
       intro m first; cases first <;> simp [skip_atomic_id g0 _ _ hst]
@@ -242,7 +242,7 @@ theorem loopC_fwd (hcn : c.name = "COMMENT") (hcs : hasBit c.mod SILENT = true)
       rw [hr] at e1 hne
       simp only [] at hne
       have hs2 : s2.atomic = true := by rw [hap _ _ _ _ hr, hst]
-      obtain ⟨N2, e2⟩ := ih s2 (acc ++ ps) hs2 hne
+      obtain ⟨N2, e2⟩ := ih s2 (acc ++ ps) hs2 (hpb _ _ _ _ hp hr) hne
       refine ⟨N1 + N2 + 1, fun m k' hm hk first => ?_⟩
       obtain ⟨k'', rfl⟩ : ∃ x, k' = x + 1 := ⟨k' - 1, by omega⟩
       simp only [repLoop, hsk, e1 m (by omega), List.append_nil]
@@ -251,9 +251,9 @@ theorem loopC_fwd (hcn : c.name = "COMMENT") (hcs : hasBit c.mod SILENT = true)
 theorem skipC_fwd (hcn : c.name = "COMMENT") (hcs : hasBit c.mod SILENT = true)
     (hgf : g.fusedSkip = none) (hgw : g.lookup "WHITESPACE" = none) (hgc : g.lookup "COMMENT" = some c)
     (hg0 : g0.fusedSkip = some ⟨"SKIP", SILENT + ATOMIC, .rep c.body, .grammar⟩)
-    {rec : Sem0} (hap : AP rec) (k : Nat) (hb : SimAt inp g0 rec true c.body c.body) :
+    {rec : Sem0} (hap : AP rec) (hpb : PB inp rec) (k : Nat) (hb : SimAt inp g0 rec true c.body c.body) :
     SkipSim g inp g0 rec k := by
-  intro s hne
+  intro s hp hne
   by_cases ha : s.atomic = true
   · rw [skip_atomic_id g rec k ha]
     exact ⟨0, fun m _ => skip_atomic_id g0 _ _ ha⟩
@@ -262,28 +262,28 @@ theorem skipC_fwd (hcn : c.name = "COMMENT") (hcs : hasBit c.mod SILENT = true)
     have hs : s = { ({ s with atomic := true } : S0) with atomic := false } := by cases s; simp_all
     rw [skip_comment_loop hgf hgw hgc rec k s ha'] at hne ⊢
     rw [hs] at hne ⊢
-    obtain ⟨N, hN⟩ := loopC_fwd inp hcn hcs hap hb k _ [] hst hne
+    obtain ⟨N, hN⟩ := loopC_fwd inp hcn hcs hap hpb hb k _ [] hst hp hne
     refine ⟨N + 1, fun m hm => ?_⟩
     obtain ⟨m', rfl⟩ : ∃ x, m = x + 1 := ⟨m - 1, by omega⟩
     rw [skip_fused_rep hg0 _ _ hst]
     exact hN m' m' (by omega) (by omega) true
 
 theorem loopC_bwd (hcn : c.name = "COMMENT") (hcs : hasBit c.mod SILENT = true)
-    {rec0 : Sem0} (hap : AP rec0) (kk : Nat) (hb : SimAt inp g rec0 true c.body c.body) :
-    ∀ (k' : Nat) (first : Bool) (st : S0) (acc : List Pair), st.atomic = true →
+    {rec0 : Sem0} (hap : AP rec0) (hpb : PB inp rec0) (kk : Nat) (hb : SimAt inp g rec0 true c.body c.body) :
+    ∀ (k' : Nat) (first : Bool) (st : S0) (acc : List Pair), st.atomic = true → st.pos ≤ inp.size →
       repLoop g0 rec0 c.body k' kk first st acc ≠ .oof →
       Evt2 (fun n k => skipLoop (run g inp n) none (some c) k { st with atomic := false } acc
         = unAtomic (repLoop g0 rec0 c.body k' kk first st acc)) := by
   intro k'
   induction k' with
-  | zero => intro first st acc _ hne; exact absurd rfl hne
+  | zero => intro first st acc _ _ hne; exact absurd rfl hne
   | succ k' ih =>
-    intro first st acc hst hne
+    intro first st acc hst hp hne
     have hsk : (if first = true then R0.ok st [] else skip g0 rec0 kk st) = R0.ok st [] := by
       cases first <;> simp [skip_atomic_id g0 _ _ hst]
     simp only [repLoop, hsk] at hne ⊢
     have h1 : rec0 c.body st ≠ .oof := by intro x; rw [x] at hne; exact hne rfl
-    obtain ⟨N1, e1⟩ := hb st hst h1
+    obtain ⟨N1, e1⟩ := hb st hst hp h1
     have e0 : ∀ rec, trySkip rec none { st with atomic := false } = .no := fun _ => rfl
     cases hr : rec0 c.body st with
     | oof => exact absurd hr h1
@@ -301,7 +301,7 @@ theorem loopC_bwd (hcn : c.name = "COMMENT") (hcs : hasBit c.mod SILENT = true)
       rw [hr] at e1 hne
       simp only [List.append_nil] at hne ⊢
       have hs2 : s2.atomic = true := by rw [hap _ _ _ _ hr, hst]
-      obtain ⟨N2, e2⟩ := ih false s2 (acc ++ ps) hs2 hne
+      obtain ⟨N2, e2⟩ := ih false s2 (acc ++ ps) hs2 (hpb _ _ _ _ hp hr) hne
       refine ⟨N1 + N2 + 1, fun n k hn hk => ?_⟩
       obtain ⟨k'', rfl⟩ : ∃ x, k = x + 1 := ⟨k - 1, by omega⟩
       simp only [skipLoop, e0, trySkip_comment hcn hcs _ hst, e1 n (by omega)]
@@ -309,17 +309,17 @@ theorem loopC_bwd (hcn : c.name = "COMMENT") (hcs : hasBit c.mod SILENT = true)
 
 theorem SimAt.of_succ {G G' : Grammar} {m : Nat} {a : Bool} {e e' : Expr}
     (h : SimAt inp G (run G' inp (m + 1)) a e e') : SimAt inp G (run G' inp m) a e e' := by
-  intro s ha hne
+  intro s ha hp hne
   have := run_mono G' inp (Nat.le_succ m) e s hne
   rw [← this]
-  exact h s ha (by rw [this]; exact hne)
+  exact h s ha hp (by rw [this]; exact hne)
 
 theorem skipC_bwd (hcn : c.name = "COMMENT") (hcs : hasBit c.mod SILENT = true)
     (hgf : g.fusedSkip = none) (hgw : g.lookup "WHITESPACE" = none) (hgc : g.lookup "COMMENT" = some c)
     (hg0 : g0.fusedSkip = some ⟨"SKIP", SILENT + ATOMIC, .rep c.body, .grammar⟩)
     (m : Nat) (hb : SimAt inp g (run g0 inp m) true c.body c.body) :
     SkipSim g0 inp g (run g0 inp m) m := by
-  intro s hne
+  intro s hp hne
   by_cases ha : s.atomic = true
   · rw [skip_atomic_id g0 _ m ha]
     exact ⟨0, fun n _ => skip_atomic_id g _ _ ha⟩
@@ -335,7 +335,8 @@ theorem skipC_bwd (hcn : c.name = "COMMENT") (hcs : hasBit c.mod SILENT = true)
         apply hne
         show unAtomic (repLoop g0 (run g0 inp m') c.body m' m' true { s with atomic := true } []) = .oof
         rw [x]; rfl
-      obtain ⟨N, hN⟩ := loopC_bwd inp hcn hcs (run_AP g0 inp m') m' (SimAt.of_succ inp hb) m' true _ [] hst hne'
+      obtain ⟨N, hN⟩ := loopC_bwd inp hcn hcs (run_AP g0 inp m') (run_PB g0 inp m') m' (SimAt.of_succ inp hb)
+        m' true _ [] hst hp hne'
       refine ⟨N, fun n hn => ?_⟩
       show skip g (run g inp n) n { ({ s with atomic := true } : S0) with atomic := false } = _
       rw [skip_comment_loop hgf hgw hgc (run g inp n) n _ rfl]
